@@ -199,6 +199,56 @@ pub struct SimResolver {
     rng: Arc<RngShared>,
     record: Option<(u8, SharedCipherLog)>,
     deny: Option<Prim>,
+    /// byzantine peer: the first Dh object handed out (the static key of Builder::build) reports
+    /// a public key that is not a valid curve point
+    evil_static_pub: bool,
+    dh_calls: std::sync::atomic::AtomicUsize,
+}
+
+/// A Dh that behaves normally except that pubkey() is corrupted in its last byte.
+pub struct EvilDh {
+    inner: Box<dyn Dh>,
+    fake: Vec<u8>,
+}
+
+pub fn corrupt_pub(p: &[u8]) -> Vec<u8> {
+    let mut f = p.to_vec();
+    if let Some(l) = f.last_mut() {
+        *l ^= 1;
+    }
+    f
+}
+
+impl Dh for EvilDh {
+    fn name(&self) -> &'static str {
+        self.inner.name()
+    }
+    fn pub_len(&self) -> usize {
+        self.inner.pub_len()
+    }
+    fn priv_len(&self) -> usize {
+        self.inner.priv_len()
+    }
+    fn set(&mut self, privkey: &[u8]) {
+        self.inner.set(privkey);
+        self.fake = corrupt_pub(self.inner.pubkey());
+    }
+    fn generate(&mut self, rng: &mut dyn Random) {
+        self.inner.generate(rng);
+        self.fake = corrupt_pub(self.inner.pubkey());
+    }
+    fn pubkey(&self) -> &[u8] {
+        &self.fake
+    }
+    fn privkey(&self) -> &[u8] {
+        self.inner.privkey()
+    }
+    fn dh(&self, pubkey: &[u8], out: &mut [u8]) -> Result<(), snow::Error> {
+        self.inner.dh(pubkey, out)
+    }
+    fn dh_len(&self) -> usize {
+        self.inner.dh_len()
+    }
 }
 
 pub fn backend_resolver(b: Backend) -> Box<dyn CryptoResolver + Send> {
@@ -220,7 +270,11 @@ impl SimResolver {
         record: Option<(u8, SharedCipherLog)>,
         deny: Option<Prim>,
     ) -> Self {
-        SimResolver { inner: backend_resolver(backend), rng, record, deny }
+        SimResolver { inner: backend_resolver(backend), rng, record, deny, evil_static_pub: false, dh_calls: std::sync::atomic::AtomicUsize::new(0) }
+    }
+    pub fn with_evil_static_pub(mut self, evil: bool) -> Self {
+        self.evil_static_pub = evil;
+        self
     }
 }
 
@@ -235,7 +289,12 @@ impl CryptoResolver for SimResolver {
         if self.deny == Some(Prim::Dh) {
             return None;
         }
-        self.inner.resolve_dh(choice)
+        let n = self.dh_calls.fetch_add(1, std::sync::atomic::Ordering::Relaxed);
+        let d = self.inner.resolve_dh(choice)?;
+        if self.evil_static_pub && n == 0 {
+            return Some(Box::new(EvilDh { inner: d, fake: vec![] }));
+        }
+        Some(d)
     }
     fn resolve_hash(&self, choice: &HashChoice) -> Option<Box<dyn Hash>> {
         if self.deny == Some(Prim::Hash) {
